@@ -421,6 +421,15 @@ func (n *fnode) eval(cur []int, arg fval, st *fstats) fval {
 				}
 			}
 			return fval{v, 0, math.Abs(v) < 1e15}
+		case "idiv":
+			a := n.kids[0].eval(cur, arg, st)
+			b := n.kids[1].eval(cur, arg, st)
+			if !a.exact || !b.exact || b.v == 0 {
+				st.unstable++
+				st.why = "integer division of inexact operands"
+				return fval{0, 0, true}
+			}
+			return fval{math.Trunc(a.v / b.v), 0, true}
 		case "imod":
 			a := n.kids[0].eval(cur, arg, st)
 			b := n.kids[1].eval(cur, arg, st)
